@@ -113,6 +113,13 @@ func (w *World) GenTxEntry(cfg GenCfg) (Entry, bool) {
 			}
 		}
 		w.Tag("batch")
+		seen := map[string]bool{}
+		for _, x := range txs {
+			if seen[x.Asset] {
+				w.Tag("nt-batch-shared")
+			}
+			seen[x.Asset] = true
+		}
 		return w.Batch(hd.A, txs), true
 	case k < cfg.PConv+cfg.PBatch+cfg.PGarbage:
 		w.Tag("garbage")
@@ -149,6 +156,103 @@ func GenModernScenario(t *rapid.T, cfg GenCfg) *Scenario {
 		w.SkipTo(next)
 		w.GenBlock(cfg)
 		w.GenBlock(cfg)
+	}
+	return w.Scenario()
+}
+
+// TimelineEra draws mainnet's order of activations compressed to gaps of 0..maxGap
+// blocks, starting at `start`. Pairs that coincide on mainnet coincide here.
+func TimelineEra(t *rapid.T, start uint32, maxGap int) Era {
+	g := func(label string, min int) uint32 { return uint32(rapid.IntRange(min, maxGap).Draw(t, label)) }
+	e := Era{Pegnet: start}
+	e.GradingV2 = e.Pegnet + g("gV2", 0)
+	e.TxConv = e.GradingV2 + g("gTx", 1)
+	e.PEGPricing = e.TxConv + g("gPricing", 0)
+	e.OneWayPFCT = e.PEGPricing + g("gPFCT", 0)
+	e.ConvLimit = e.OneWayPFCT + g("gLimit", 0)
+	e.FreeFloat = e.ConvLimit
+	e.V4OPR = e.FreeFloat + g("gV4", 1)
+	e.RCDE = e.V4OPR
+	e.V20 = e.V4OPR + g("gV20", 1)
+	e.V20Dev = e.V20 + g("gDev", 1)
+	e.SprSig = e.V20Dev
+	e.V202 = e.V20Dev + g("gV202", 1)
+	e.OneWaySmall = e.V202
+	e.V204 = e.V202 + g("gV204", 1)
+	e.V204Burn = e.V204 + g("gBurn", 1)
+	e.PIP10 = e.V204Burn + g("gPIP10", 1)
+	e.AvgPeriod = uint64(rapid.IntRange(3, 8).Draw(t, "avgPeriod"))
+	e.AvgRequired = e.AvgPeriod / 2
+	return e
+}
+
+// GenBurns draws 0..n FCT burns (and near-misses) for the next height.
+func (w *World) GenBurns(n int) []FctTx {
+	t := w.T
+	var out []FctTx
+	k := rapid.IntRange(0, n).Draw(t, "nburns")
+	for i := 0; i < k; i++ {
+		a := w.PickActor("burner")
+		amt := uint64(rapid.IntRange(1, 5000).Draw(t, "burnAmt")) * 1e6
+		w.seq++
+		tx := BurnTx(w.H(), a, amt, uint64(w.seq))
+		switch rapid.IntRange(0, 9).Draw(t, "burnKind") {
+		case 0: // buys entry credits instead of burning
+			tx.ECOut[0].Amount = 1000
+			w.Tag("burn-nearmiss")
+		case 1: // other EC address
+			tx.ECOut[0].Address[0] ^= 1
+			w.Tag("burn-nearmiss")
+		case 2: // two inputs
+			b := w.PickActor("burner2")
+			tx.Inputs = append(tx.Inputs, FctIO{Amount: 5, Address: b.Addr()})
+			tx.RCDs = append(tx.RCDs, b.RCD())
+			w.Tag("burn-nearmiss")
+		case 3: // an FCT output besides the EC output
+			tx.Outputs = []FctIO{{Amount: 7, Address: w.PickActor("fctOut").Addr()}}
+			w.Tag("burn-nearmiss")
+		case 4: // plain factoid transfer
+			tx.ECOut = nil
+			tx.Outputs = []FctIO{{Amount: amt, Address: w.PickActor("fctOut").Addr()}}
+			w.Tag("burn-nearmiss")
+		default:
+			w.Tag("burn")
+		}
+		out = append(out, tx)
+	}
+	return out
+}
+
+// GenTimelineScenario: a chain that walks through every activation in mainnet's order.
+func GenTimelineScenario(t *rapid.T, cfg GenCfg) *Scenario {
+	k := rapid.IntRange(5, 8).Draw(t, "startK")
+	start := uint32(144*k + rapid.IntRange(60, 130).Draw(t, "startOff"))
+	era := TimelineEra(t, start, 4)
+	w := NewWorld(t, era, cfg.Actors)
+	end := era.PIP10 + uint32(rapid.IntRange(2, 8).Draw(t, "tail"))
+	needFullV2 := true
+	for w.H() <= end {
+		h := w.H()
+		b := w.DrawBlock(cfg)
+		if h < era.V20 {
+			b.Fct = w.GenBurns(3)
+		}
+		// the grader refuses a 10-winner history from version 3 on: mainnet had fully
+		// graded V2 blocks before the switch; so does every generated chain
+		if h >= era.GradingV2 && h < era.FreeFloat && needFullV2 {
+			b.OPR = w.OPRSet(OPRSetOpts{N: 26, Miners: w.Actors[:26]})
+			needFullV2 = false
+		}
+		if h >= era.V20 && h < era.V202 {
+			if Open("C11/band-early-return") && len(b.SPR) > 0 && len(b.OPR) > 0 {
+				// keep the SPR winner inside the band around the OPR winner (registered finding otherwise)
+				b.SPR = w.SPRSet(len(b.SPR), nil)
+			}
+			if Open("C08/snapshot-norates") && h%144 == 0 && len(b.OPR) < 25 {
+				b.OPR = w.OPRSet(OPRSetOpts{N: 26, Miners: w.Actors[:26]})
+			}
+		}
+		w.Commit(b)
 	}
 	return w.Scenario()
 }
